@@ -1307,6 +1307,9 @@ def install(prog):
         f = deref(a[1]).f[0]
         pad_write(f, list(as_str(it, a[0]).chars())); return mk_ok(UNIT)
 
+    @M(r"<.* as thiserror::__private::AsDisplay.*>::as_display")
+    def _(it, m, a): return a[0]
+
     @M(r'<char as (?:std::fmt::)?Display>::fmt')
     def _(it, m, a):
         ch = deref(a[0]); deref(a[1]).f[0].out.append((ch, len_utf8(it, ch))); return mk_ok(UNIT)
@@ -1564,6 +1567,25 @@ def install(prog):
         for _, w in sr.chars():
             o += w; offs.add(o)
         return i in offs
+
+    @M(r'(?:std|alloc)::slice::<impl \[String\]>::join::<&str>|(?:std|alloc)::slice::<impl \[&str\]>::join::<&str>')
+    def _(it, m, a):
+        items = deref(a[0])
+        if isinstance(items, SliceRef): items = items.lst()[items.lo:items.hi]
+        sep = list(as_str(it, a[1]).chars())
+        out = []
+        for i, x in enumerate(items):
+            if i: out += sep
+            out += list(as_str(it, x).chars())
+        return StrObj(out)
+
+    @M(r'<&?Rc<RefCell<String>> as PartialEq>::(eq|ne)')
+    def _(it, m, a):
+        x, y = deref(a[0]), deref(a[1])
+        while isinstance(x, Agg) and x.ty == 'RefCell': x = x.f[0]
+        while isinstance(y, Agg) and y.ty == 'RefCell': y = y.f[0]
+        e = chars_equal(it, list(as_str(it, x).chars()), list(as_str(it, y).chars()))
+        return e if m.group(1) == 'eq' else not e
 
     @M(r'core::str::<impl str>::contains::<char>')
     def _(it, m, a):
@@ -1899,7 +1921,7 @@ def install(prog):
     @M(r'(?:std::iter::|core::iter::)?repeat::<.*>')
     def _(it, m, a): raise Unsupported('unbounded iter::repeat')
 
-    @M(r'core::str::<impl str>::(to_lowercase|to_uppercase)')
+    @M(r'(?:core|std|alloc)::str::<impl str>::(to_lowercase|to_uppercase)')
     def _(it, m, a):
         out = []
         for c, w in as_str(it, a[0]).chars():
